@@ -44,7 +44,7 @@ CHECKS = {
                 'every enumerated source/grid (incl. duplicated and mirror-image models: exact ties; certain limits: Big chi^2).  Replay compares the whole FitInfo: every model exactly once, '
                 'observed chi^2 non-decreasing, and per row (matched by model name) model_id, A_V, scale, chi^2 and every predicted flux. A dark-model stage inserts a model with zero flux in a fitted band at a seed-chosen position of the package (non-finite chi^2 listed before finite ones) and compares every spec row by name with shifted indices.',
         'ref': 'DESIGN.md section 6 C04',
-        'note': _NOTE + ' Tie order is free.  Infinite chi^2 is produced by a small MC_Resolved instance (remove_resolved=True) replayed through the real Fitter: every row incl. predicted fluxes and the position of the inf rows is compared.',
+        'note': _NOTE + ' Tie order is free.  Infinite chi^2 is produced by a small MC_Resolved instance (remove_resolved=True) replayed through the real Fitter; WHICH cells count as resolved is read from the fitter (that is the extension X02, not C04), and given that classification every row incl. predicted fluxes and the position of the inf rows is compared.',
         'technique': 'TLA+ spec + TLC; spec->code replay of whole FitInfo rows; trace validation (rank, ids, predicted fluxes)',
     },
     'C06': {
